@@ -31,8 +31,8 @@ type warmCase struct {
 	Hist   string  `json:"demand"`      // saturate | saturate-idle-saturate | sparse | bursty
 	// Throttle: the warm-up calculator drives a throttling checker (no queueing) instead of the reject checker: the
 	// envelope is the same, observed through the paced admissions
-	Throttle bool `json:"throttling_checker,omitempty"`
-	Note   string  `json:"note,omitempty"`
+	Throttle bool   `json:"throttling_checker,omitempty"`
+	Note     string `json:"note,omitempty"`
 }
 
 func (c warmCase) cold() float64 {
@@ -417,8 +417,143 @@ func coopEngine() {
 	}
 }
 
+// ---- cooperative engine for the memory-adaptive rule: the memory reading changes (another worker stores new readings,
+// across the water marks) while requests are being checked, interleaved at every shimmed access of the reading.
+// Whatever reading a check happens to see, the effective threshold lies in [high-memory threshold, low-memory
+// threshold]: a batch equal to the high-memory threshold fits an empty window, a batch above the low-memory one never.
+type memCoopCase struct {
+	LowThr, HighThr   int64
+	LowMark, HighMark int64
+	Readings          []int64 `json:"readings_stored_by_the_toggler"`
+	Callers           int     `json:"callers"`
+	Strat             string  `json:"strategy"`
+	Choices           []byte  `json:"choices,omitempty"`
+}
+
+func memCoopEngine() {
+	run = vk.Start("C11", "coopmem")
+	defer run.Finish()
+	run.Rule("schedule = (memory-adaptive rule, low/high thresholds and water marks; one worker stores 4-8 memory readings below / between / above the marks, 1-2 callers check batches equal to the high-memory threshold (must fit an empty window) and one above the low-memory threshold (never fits); choice sequence at every shimmed access of the memory reading) under random walk, PCT d<=3 and bounded DFS. distinct = distinct (case, interleaving).")
+	run.Assume("the reading is the only shared state; every check runs in a fresh statistic window")
+	clk = vclock.New(1900000000000)
+	{
+		c0 := atomic.LoadUint64(&vatomic.Count)
+		system_metric.SetSystemMemoryUsage(5)
+		_ = system_metric.CurrentMemoryUsage()
+		if atomic.LoadUint64(&vatomic.Count) == c0 {
+			run.Inconclusive("observability: reading the memory usage executed no shimmed access (was it moved out of core/system_metric/sys_metric_stat.go?) - no interleaving can be explored")
+			return
+		}
+	}
+	gen := func(rng *rand.Rand) *memCoopCase {
+		low := int64(20 + rng.Intn(1000))
+		c := &memCoopCase{LowThr: low, HighThr: int64(1 + rng.Intn(int(low)-1)), LowMark: int64(1000 + rng.Intn(100000)), Callers: 1 + rng.Intn(2)}
+		c.HighMark = c.LowMark + int64(1+rng.Intn(200000))
+		for i, n := 0, 4+rng.Intn(5); i < n; i++ {
+			c.Readings = append(c.Readings, vk.PickI64(rng, 1, c.LowMark-1, c.LowMark, c.LowMark+(c.HighMark-c.LowMark)/2, c.HighMark, c.HighMark+1, c.HighMark*3))
+		}
+		return c
+	}
+	do := func(c *memCoopCase, ch coop.Chooser) {
+		caseNo++
+		res := fmt.Sprintf("c11cm-%d", caseNo)
+		system_metric.SetSystemMemoryUsage(c.LowMark)
+		if _, err := flow.LoadRulesOfResource(res, []*flow.Rule{{ID: res, Resource: res, TokenCalculateStrategy: flow.MemoryAdaptive, ControlBehavior: flow.Reject,
+			LowMemUsageThreshold: c.LowThr, HighMemUsageThreshold: c.HighThr, MemLowWaterMarkBytes: c.LowMark, MemHighWaterMarkBytes: c.HighMark}}); err != nil || len(flow.GetRulesOfResource(res)) == 0 {
+			return
+		}
+		defer flow.ClearRulesOfResource(res)
+		bad := ""
+		fns := []func(){func() {
+			for _, u := range c.Readings {
+				system_metric.SetSystemMemoryUsage(u)
+				coop.Yield("stored")
+			}
+		}}
+		for k := 0; k < c.Callers; k++ {
+			fns = append(fns, func() {
+				for j := 0; j < 3; j++ {
+					clk.AddMs(3000)
+					e, b := sentinel.Entry(res, sentinel.WithBatchCount(uint32(c.HighThr)))
+					if b != nil {
+						bad = fmt.Sprintf("a batch of %d (the high-memory threshold, the smallest the effective threshold may be) was rejected in an empty window", c.HighThr)
+					} else {
+						e.Exit()
+					}
+					clk.AddMs(3000)
+					e, b = sentinel.Entry(res, sentinel.WithBatchCount(uint32(c.LowThr+1)))
+					if b == nil {
+						bad = fmt.Sprintf("a batch of %d (one above the low-memory threshold, the largest the effective threshold may be) was admitted", c.LowThr+1)
+						e.Exit()
+					}
+				}
+			})
+		}
+		r := coop.Run(ch, coop.Options{Adversarial: 1500, FairTail: 10000}, fns...)
+		if r.Stuck {
+			run.Abort("scheduler: a worker did not reach a yield point (wall-clock guard); the process is abandoned")
+		}
+		c.Choices = r.Choices
+		if len(r.NonTerminated) > 0 {
+			run.Violation("C11/coopmem:non-termination", fmt.Sprintf("workers %v did not return within 10000 fair steps", r.NonTerminated), c)
+			return
+		}
+		for w, p := range r.Panics {
+			run.Violation("C11/coopmem:panic", fmt.Sprintf("worker %d panicked: %s", w, p), c)
+			return
+		}
+		if bad != "" {
+			run.Violation("C11/coopmem:outside-envelope", fmt.Sprintf("[low/high threshold %d/%d, marks %d/%d, readings changing meanwhile] %s", c.LowThr, c.HighThr, c.LowMark, c.HighMark, bad), c)
+			return
+		}
+		run.Distinct(vk.Hash(c.LowThr, c.HighThr, c.LowMark, c.HighMark, c.Readings, c.Callers, string(r.Choices)))
+	}
+	n := run.N(1500, 100000)
+	for i := 0; i < n; i++ {
+		if run.Skip(i) {
+			continue
+		}
+		rng := run.Rand(i)
+		c := gen(rng)
+		var ch coop.Chooser
+		if i%4 == 0 {
+			c.Strat = "random"
+			ch = &coop.Random{R: rng}
+		} else {
+			d := 1 + rng.Intn(3)
+			c.Strat = fmt.Sprintf("pct-d%d", d)
+			ch = coop.NewPCT(rng, 1+c.Callers, d, 40)
+		}
+		run.Eval(i)
+		if i < 2 {
+			run.Sample(c)
+		}
+		do(c, ch)
+	}
+	if !run.Replaying() {
+		for j, nd := 0, run.N(2, 30); j < nd; j++ {
+			c := gen(run.Rand(9_500_000 + j))
+			c.Callers = 1
+			c.Strat = "dfs-2-preemptions"
+			d := &coop.DFS{MaxPreempt: 2}
+			cnt := 0
+			for d.Next() && cnt < 5000 {
+				cnt++
+				run.Eval(9_500_000 + j)
+				cc := *c
+				do(&cc, d)
+			}
+			run.Count("dfs_schedules", int64(cnt))
+		}
+	}
+}
+
 func main() {
 	sx.Quiet()
+	if os.Getenv("VERIF_MODE") == "coopmem" {
+		memCoopEngine()
+		return
+	}
 	if os.Getenv("VERIF_MODE") == "coop" {
 		coopEngine()
 		return
